@@ -550,6 +550,33 @@ def dilating_case(tid, n, perm, who, hold_version=True):
     return run, bool(drained), drained, ok
 
 
+def input_callback_case(tid, mode, words_when, peer_first):
+    """Interactive code entry by an application that uses the helper from inside its when_wordlist_is_available() callback
+    (completions the moment the word list is there), in both API flavours; the words are chosen before or after the claim is
+    answered; the peer's code is set before or after.  Every legal helper call behaves as it does anywhere else."""
+    run = RealRun(tid, "input-callback-family", modes={"A": "deferred", "B": mode})
+    w = run.world
+    w.wordlist_callback = True
+    for c in ("A", "B"):
+        run.apply({"a": "ConnOpen", "c": c})
+    if peer_first:
+        run.apply({"a": "AppSetCode", "c": "A", "code": "4-alpha-beta"})
+        run.drain()
+    run.apply({"a": "AppInput", "c": "B"})
+    run.apply({"a": "AppHelper", "c": "B", "m": "refresh_nameplates", "args": []})
+    run.apply({"a": "AppHelper", "c": "B", "m": "choose_nameplate", "args": ["4"]})
+    if words_when == "after-claim":
+        run.drain()
+    run.apply({"a": "AppHelper", "c": "B", "m": "get_word_completions", "args": ["al"]})
+    run.apply({"a": "AppHelper", "c": "B", "m": "choose_words", "args": ["alpha-beta"]})
+    if not peer_first:
+        run.apply({"a": "AppSetCode", "c": "A", "code": "4-alpha-beta"})
+    for c in ("A", "B"):
+        run.apply({"a": "AppSend", "c": c, "data": ("m:%s:0" % c).encode().hex()})
+    drained = run.drain()
+    return run, bool(drained), drained
+
+
 def dilate_close_case(tid, peer, when, who_closes):
     """close() on a wormhole whose application called dilate(): the peer dilates too, only has Dilation enabled, or is an
     old client without it (`peer`); dilate() is called before or after the peer's versions arrive (`when`); then the sides in
@@ -1775,6 +1802,21 @@ def run_pipeline(prop, tier, v, quick):
                         runs[tid] = run_
                         records.append(run_.finish(drained, goal=False))
             cov["c08_unread_at_close_cases"] = n
+        if prop in ("C14", "C19"):
+            n = 0
+            for mode in ("deferred", "delegated"):
+                for words_when in ("after-claim", "before-claim"):
+                    for peer_first in (False, True):
+                        tid += 1
+                        n += 1
+                        try:
+                            run_, goal, drained = input_callback_case(tid, mode, words_when, peer_first)
+                        except Exception as e:
+                            cov.setdefault("family_errors", []).append("input-callback %s %s: %r" % (mode, words_when, e))
+                            continue
+                        runs[tid] = run_
+                        records.append(run_.finish(drained, goal=goal))
+            cov["input_callback_cases"] = n
         if prop in ("C08", "C14", "C09"):
             # family: close() on wormholes whose applications use Dilation (peer dilating, merely capable, or an old client)
             n = 0
